@@ -44,6 +44,7 @@ func main() {
 	r.Parallel("c02gen", r.N(300, 7500), func(i int) { streamC02(r, i) })
 	r.Parallel("c08gen", r.N(125, 3750), func(i int) { streamC08(r, i) })
 	r.Parallel("own", r.N(130, 3000), func(i int) { streamOwn(r, i) })
+	intUnify(r)
 	pinned(r)
 	r.Floor(r.Counter("statements:c02gen") > 0 && r.Counter("statements:c08gen") > 0 && r.Counter("statements:own") > 0, "a statement stream produced no checked result")
 	for _, c := range []string{"union", "outer-join", "aggregate", "conditional", "expression"} {
